@@ -152,6 +152,10 @@ func GenStream(r *core.Rand, cfg *StreamCfg) *Stream {
 		if first == "==================" && !(d.F.Indent == "") {
 			first = "x" + first
 		}
+		if cfg.Junk.StrayCR && eol == "\r\n" && r.Chance(1, 3) {
+			// "\r\r\n": one terminator is stripped, a carriage return remains - not a blank line, not a frame: it ends the dump
+			first = "\r"
+		}
 		s.Segs = append(s.Segs, Seg{Text: BinStr(d.F.Indent + first + eol + text(r.Intn(3)))})
 	}
 	if cfg.EndWithheld > 0 {
